@@ -1,6 +1,6 @@
 (* C18 - bounded resources: no descriptor leaks, one open file, chunked I/O.  Statements only (partial: see MANIFEST). *)
 From Coq Require Import List ZArith NArith.
-From DOS Require Import Generated Base Store MonoStep Programs ProgramsProofs Resources ResourcesProgs.
+From DOS Require Import Generated Base Store MonoStep Programs ProgramsProofs Resources ResourcesProgs Lookup LookupFd.
 Import ListNotations.
 
 (* the set of open write handles after ANY trace is determined by its opens and closes (model of the descriptor table) *)
@@ -43,6 +43,32 @@ Proof.
   - unfold p_clean. rewrite forallb_app, unlinks_neutral. destruct vacuum; reflexivity.
 Qed.
 
+(* the READ side: LookupFd.lookup_events is the sequence of opens / closes / yields of the bulk generator (has_objects, get_objects_meta,
+   get_objects_content, get_objects_stream_and_meta).  It carries exactly the answers of Lookup.lookup_bulk, and for ALL thresholds, requests,
+   index snapshots and loose folders, with n files open before the call, at EVERY point of the call at most n + 1 are open and exactly n when
+   it ends: bulk reads keep at most one pack or loose file open at a time, whatever the number of keys, packs and objects *)
+Theorem C18_bulk_read_events_are_the_answers : forall c skip streams d1 ls d2 ks,
+  yields (lookup_events c skip streams d1 ls d2 ks) = fst (lookup_bulk c skip d1 ls d2 ks).
+Proof. exact events_yield_the_answers. Qed.
+
+Theorem C18_bulk_read_one_file_at_a_time : forall c skip streams d1 ls d2 ks n,
+  fd_after n (lookup_events c skip streams d1 ls d2 ks) = n /\
+  forall m, fd_after n (firstn m (lookup_events c skip streams d1 ls d2 ks)) <= S n.
+Proof. exact bulk_read_one_file_at_a_time. Qed.
+
+(* existence checks and metadata open no file at all *)
+Theorem C18_bulk_meta_opens_nothing : forall c skip d1 ls d2 ks,
+  forallb (fun e => match e with RYield _ | RMiss _ | RReset => true | _ => false end) (lookup_events c skip false d1 ls d2 ks) = true.
+Proof. exact bulk_meta_opens_nothing. Qed.
+
+(* non-vacuity: two packs, a loose object, an object found only after the refresh, a missing key *)
+Example C18_bulk_ex :
+  lookup_events (mkLcfg 2 7) false true [mkRow 5%N 0 10 4 false 4; mkRow 2%N 1 0 3 true 9] [(4%N, 6)] [mkRow 5%N 0 10 4 false 4; mkRow 2%N 1 0 3 true 9; mkRow 7%N 1 3 2 false 2] [5;4;7;8;2]%N =
+  [ROpenPack 0; RYield (FPacked (mkRow 5%N 0 10 4 false 4)); RClosePack 0; ROpenPack 1; RYield (FPacked (mkRow 2%N 1 0 3 true 9)); RClosePack 1;
+   ROpenLoose 4%N; RYield (FLoose 4%N 6); RCloseLoose 4%N; RMiss 7%N; RMiss 8%N; RReset;
+   ROpenPack 1; RYield (FPacked (mkRow 7%N 1 3 2 false 2)); RClosePack 1; RYield (FMissing 8%N)].
+Proof. vm_compute. reflexivity. Qed.
+
 (* chunk constants of the current source bound every single read/write of the streaming paths *)
 Theorem C18_chunk_bounds : (CHUNKSIZE <= 16777216 /\ ADD_READ_CHUNK <= 16777216 /\ HASH_CHUNK <= 16777216 /\ ZLIB_CHUNKSIZE <= 16777216 /\ ZLIB_SEEK_READ_CHUNK <= 16777216)%Z.
 Proof. cbv. repeat split; congruence. Qed.
@@ -54,3 +80,6 @@ Print Assumptions C18_pack_one_handle_at_a_time.
 Print Assumptions C18_import_one_handle_at_a_time.
 Print Assumptions C18_repack_one_handle_at_a_time.
 Print Assumptions C18_delete_and_clean_open_nothing.
+Print Assumptions C18_bulk_read_events_are_the_answers.
+Print Assumptions C18_bulk_read_one_file_at_a_time.
+Print Assumptions C18_bulk_meta_opens_nothing.
